@@ -34,6 +34,9 @@ OPTION_SETS = [
 #     the linearization parts follows the numbering of the file being read, which settles one generation later (known
 #     finding C09:transform-lag); likewise two such options together (QPDFJob applies them in a fixed order, e.g. --coalesce-contents
 #     before --flatten-rotation, so generation 2 transforms again and the streams it creates get their keys sorted only in generation 3);
+#   * --linearize with content normalisation (--normalize-content=y or --qdf) when the file being rewritten is encrypted:
+#     generations 1, 2, 3 are the same document but the file shrinks twice before it settles (known finding
+#     C09:linearize-normalize-encrypted-lag; also on the tree as it was before any repair);
 #   * --preserve-unreferenced: every generation keeps the previous generation's object streams, xref stream and
 #     indirect /Length objects as unreferenced garbage and grows (known finding C09:preserve-unreferenced-accumulates).
 R_OBJSTM = [["--object-streams=preserve"], ["--object-streams=disable"], ["--object-streams=generate"]]
@@ -65,15 +68,22 @@ def random_option_set(rng, lagging=False):
         elif r < 0.7:
             if "--qdf" not in o:
                 o.append("--qdf")
-        else:
+        elif r < 0.85:
             o += [x for x in (rng.choice(["--linearize", rng.choice(R_TRANSFORM)]), rng.choice(R_TRANSFORM)) if x not in o]
             o = [x for x in o if x != "--qdf"]
+        else:
+            o += [x for x in ("--linearize", "--normalize-content=y") if x not in o]
+            o = [x for x in o if x != "--qdf"]
+            if not enc:
+                enc = R_ENC[3]
     else:
         if "--qdf" in o:
             o.append("--no-original-object-ids")
         tr = [x for x in o if x in R_TRANSFORM]
         if "--linearize" in o:
-            o = [x for x in o if x not in R_TRANSFORM]
+            # (content normalisation - explicit or through --qdf - of a linearized rewrite of an ENCRYPTED file lags too:
+            # known finding C09:linearize-normalize-encrypted-lag, thorough tier only)
+            o = [x for x in o if x not in R_TRANSFORM and x not in ("--normalize-content=y", "--qdf", "--no-original-object-ids")]
         elif len(tr) > 1:
             o = [x for x in o if x not in tr[1:]]
     return o + enc
@@ -414,6 +424,14 @@ def run(chk):
                     ok = q1 == q[0]
                 if ok:
                     sig = "C09:transform-lag"
+            elif "--linearize" in opts and ("--normalize-content=y" in opts or "--qdf" in opts) and (pw or inp in encrypted_inputs):
+                # explained iff generation 3 = generation 4 and generations 1, 2 and 3 are the same document (identical decrypted QDF forms)
+                g4 = os.path.join(wd, "g%d-4.pdf" % jid)
+                rc4 = common.run_qpdf(pw + o2 + [g23[1], g4])[0]
+                q = [common.run_qpdf(pw + ["--static-id", "--static-aes-iv", "--decrypt", "--qdf", "--no-original-object-ids", x, "-"])[1]
+                     for x in [os.path.join(wd, "g%d-1.pdf" % jid)] + g23]
+                if rc4 in (0, 3) and open(g4, "rb").read() == open(g23[1], "rb").read() and q[0] and q[0] == q[1] == q[2]:
+                    sig = "C09:linearize-normalize-encrypted-lag"
             if sig == "fixpoint" and ("--use-aes=y" in opts or "--bits=256" in opts):
                 # D16: an EMPTY stream of an AES-encrypted input has raw /Length 32, is not recognised as empty by the writer's
                 # "do not compress empty streams" rule and gains /Filter /FlateDecode in generation 2 (appended) whose position in the
